@@ -34,7 +34,7 @@ ANCHORS = ["let", "HashedIterable.__iter__", "ResultQuantifier.evaluate", "Varia
            "symbolic_function", "Predicate.__new__", "CanBehaveLikeAVariable.__getattr__"]
 
 FAMILIES = [("single", 25), ("nested2", 15), ("core", 20), ("rich", 15), ("flat", 6), ("sub", 4), ("E1", 3), ("E2", 3),
-            ("forall", 3), ("msb", 3), ("rule", 2), ("match", 1)]
+            ("forall", 3), ("msb", 3), ("rule", 2), ("match", 3)]
 
 
 def plan(tier):
@@ -139,11 +139,93 @@ def construct_template(spec, lm):
         built = list(lm.LOG)
         res = [(r.tag, r.p.name) for r in q.evaluate()]
         return built, len(res)
-    from krrood.entity_query_language.match import entity_matching
-    q = an(entity_matching(lm.P, lm.logging_domain({"name": "x"}, items))(name="o0"))
-    built = list(lm.LOG)
-    res = list(q.evaluate())
-    return built, len(res)
+    raise ValueError(spec["template"])
+
+
+def match_template_queries(spec, lm):
+    """-> make(): builds the pattern query over fresh LS objects and a logging one-shot domain"""
+    import random
+    from krrood.entity_query_language.quantify_entity import an
+    from krrood.entity_query_language.match import entity_matching, match, match_any
+    rng = random.Random(spec["tseed"])
+    n = rng.randint(1, 6)
+    world = [(rng.choice(["LS", "LS2"]), rng.randint(0, 1), [rng.randrange(n) for _ in range(rng.randint(0, 2))]) for _ in range(n)]
+    kind = rng.choice(["lit", "nested", "any", "subtype"])
+
+    def make():
+        objs = [getattr(lm, c)(name=f"s{i}", a=a) for i, (c, a, _) in enumerate(world)]
+        for o, (_, _, ps) in zip(objs, world):
+            object.__setattr__(o, "parts", [objs[j] for j in ps])
+        lm.LOG.clear()
+        dom = lm.logging_domain({"name": "x"}, objs)
+        if kind == "lit":
+            pat = entity_matching(lm.LS, dom)(a=1)
+        elif kind == "subtype":
+            pat = entity_matching(lm.LS2, dom)(a=0)
+        elif kind == "nested":
+            pat = entity_matching(lm.LS, dom)(parts=match(lm.LS)(a=1))
+        else:
+            pat = entity_matching(lm.LS, dom)(parts=match_any([objs[0]]))
+        q = an(pat)
+        return q, list(lm.LOG), objs
+
+    return make, kind
+
+
+def run_match_template(spec, ctx):
+    import itertools as it_
+    from krrood.entity_query_language.symbol_graph import SymbolGraph
+    lm = ctx["lm"]
+    C = ctx["counters"]
+    SymbolGraph().clear()
+    SymbolGraph()
+    make, kind = match_template_queries(spec, lm)
+    try:
+        q, built, objs = make()
+    except Exception as e:
+        recover(ctx)
+        return {"status": "fail", "kind": "template-exception", "key": None, "detail": f"match/{kind}: {e!r}"[:300]}
+    C["build_checks"] += 1
+    C["match_templates"] += 1
+    if built:
+        return {"status": "fail", "kind": "build-time-event", "key": None,
+                "detail": f"constructing a match pattern ({kind}) evaluated user data: {built[:5]}"}
+    it = q.evaluate()
+    if lm.LOG:
+        return {"status": "fail", "kind": "evaluate()-call-event", "key": None, "detail": f"match/{kind}: {lm.LOG[:5]}"}
+    results, results_at = [], []
+    try:
+        for r in it:
+            results.append(getattr(r, "name", repr(r)))
+            results_at.append(len(lm.LOG))
+    except Exception:
+        C["evaluation_raises"] += 1
+        return {"status": "skip"}
+    full = list(lm.LOG)
+    C["events_logged"] += len(full)
+    C["pull_events"] += sum(1 for e in full if e[0] == "pull")
+    problems = []
+    for k in range(0, len(results) + 1):
+        q2, built2, _ = make()
+        got = [getattr(r, "name", repr(r)) for r in it_.islice(q2.evaluate(), k)]
+        part = list(lm.LOG)
+        C["prefix_checks"] += 1
+        if got != results[:k]:
+            problems.append(f"k={k}: results {got} are not a prefix of {results}")
+        if part != full[:len(part)]:
+            problems.append(f"k={k}: event log is not a prefix of the full run's log")
+        elif k == 0 and part:
+            problems.append(f"k=0: events without any result requested: {part[:4]}")
+        else:
+            cut = results_at[k - 1] if k else 0
+            pulled = sum(1 for e in part if e[0] == "pull")
+            pulled_full = sum(1 for e in full[:cut] if e[0] == "pull")
+            if pulled > pulled_full + 1:
+                problems.append(f"k={k}: {pulled} elements pulled, the full run had pulled {pulled_full} at result {k}")
+    if problems:
+        return {"status": "fail", "kind": "laziness", "key": None, "detail": f"match/{kind}: " + "; ".join(problems[:3])}
+    return {"status": "ok", "nontrivial": len(results) >= 2, "shape": f"template:match:{kind}:{len(results)}",
+            "obs": {"results": len(results), "events": len(full)}}
 
 
 def _first_binder_is_product(spec):
@@ -162,15 +244,13 @@ def run(spec, ctx):
     C = ctx["counters"]
     fam = spec["family"]
     C["family:" + fam] += 1
+    if spec.get("template") == "match":
+        return run_match_template(spec, ctx)
     if spec.get("template"):
         try:
             built, n = construct_template(spec, lm)
         except Exception as e:
             recover(ctx)
-            if spec["template"] == "match":
-                # plain (non-dataclass) logging classes may not be accepted by match; not this property's business
-                C["template_rejected:" + type(e).__name__] += 1
-                return {"status": "skip"}
             return {"status": "fail", "kind": "template-exception", "key": None, "detail": repr(e)[:300]}
         C["build_checks"] += 1
         if built:
